@@ -6,14 +6,18 @@
 (*   Open : who, id, cred, ms, ts, tm, ack ("ok" | "fail" | "none"), closed                     *)
 (*          id   "none" (no handshake) | "noneHs" (failed handshake) | "listen" | "target" |    *)
 (*               "stranger"                                                                    *)
-(*          cred "idOnly" | "rightSecret" | "wrongSecret" | "resume" | "nothing" | "otherId"    *)
-(*               (otherId = the id of another, active mapping whose listen client is the        *)
-(*               stranger; resume / wrongSecret carry the mapping id as well)                   *)
+(*          cred "idOnly" | "rightSecret" | "wrongSecret" | "resume" | "nothing" | "otherId" |  *)
+(*               "otherSecret"  (otherId = the id of another, active mapping M2 whose listen    *)
+(*               client is the stranger; otherSecret = id + secret of a third active mapping M3 *)
+(*               whose target client is the stranger; resume / wrongSecret carry M's id too)    *)
 (*          ms   "active" | "revoked" | "expired" | "inactive" | "missing"  (mapping M now)     *)
-(*          ts   "none" | "waiting" | "served" | "remote"    (tunnel state at arrival)          *)
-(*          tm   "-" | "M" | "M2"   (mapping the already registered tunnel belongs to)          *)
+(*          ts   "none" | "waiting" | "served" | "remote"    (tunnel state at arrival), or      *)
+(*               "lateLocal" | "lateRemote": nothing at arrival, the tunnel was registered on   *)
+(*               this / another node while the request was being served                         *)
+(*          tm   "-" | "M" | "M2" | "M3" (mapping the tunnel registered AT ARRIVAL belongs to)  *)
 (*          keyless (optional) TRUE: mapping M has an empty secret                              *)
-(*   Obs  : att    who -> "none" | "src" | "tgt" | "fwd"  (connection object the bridge holds / *)
+(*   Obs  : bm     "-" | "M" | "M2" | "M3"  mapping of the bridge that exists in the end        *)
+(*          att    who -> "none" | "src" | "tgt" | "fwd"  (connection object the bridge holds / *)
 (*                                                         forwarded from another node)         *)
 (*          marker who -> BOOLEAN  (a marker written by another end is readable on it)          *)
 (*          stray  who -> BOOLEAN  (any byte at all arrived after the acknowledgement)          *)
@@ -23,14 +27,17 @@
 (*               own mapping                                                                    *)
 (*   Unentitled   : attached (as source, as target, through another node)  => entitled          *)
 (*   Leak         : marker readable \/ any tunnel byte                     => entitled          *)
-(*   NoFailureAck : ~entitled => failure acknowledgement (or connection closed)                 *)
+(*                  - both for the mapping of the tunnel that exists in the end (bm)            *)
+(*   NoFailureAck : ~entitled (for what existed at arrival) => failure acknowledgement (or      *)
+(*                  connection closed)                                                          *)
 (* Nothing is demanded of entitled requests (the statement says "only if").                     *)
 EXTENDS VLib
 
-VARIABLES reqs     \* who -> [e, d, ack, closed] of the requests seen in the current trace
+VARIABLES reqs     \* who -> [o, d, ack, closed] of the requests seen in the current trace
 jvars == <<l, viol, reqs>>
 
-Empty == [w \in {} |-> [e |-> FALSE, d |-> "", ack |-> "", closed |-> FALSE]]
+Req(o) == [id |-> o.id, cred |-> o.cred, ms |-> o.ms, tm |-> o.tm, kl |-> "keyless" \in DOMAIN o /\ o.keyless]
+Empty == [w \in {} |-> [o |-> Req([id |-> "", cred |-> "", ms |-> "", tm |-> ""]), d |-> "", ack |-> "", closed |-> FALSE]]
 Init == l = 1 /\ viol = {} /\ reqs = Empty
 
 Authd(i) == i \in {"listen", "target", "stranger"}
@@ -39,27 +46,32 @@ Keyless(o) == "keyless" \in DOMAIN o /\ o.keyless
 EntM(o) == /\ Authd(o.id) /\ o.ms = "active"
            /\ \/ o.id = "listen" /\ o.cred \in {"idOnly", "rightSecret", "wrongSecret", "resume"}
               \/ o.id \in {"listen", "target"} /\ o.cred = "rightSecret"
-              \/ o.id = "target" /\ o.cred = "idOnly" /\ Keyless(o)    \* the mapping's secret is the empty one
-Entitled(o) == IF o.cred = "otherId" THEN o.id = "stranger" /\ o.tm \in {"-", "M2"}
-               ELSE EntM(o) /\ o.tm \in {"-", "M"}
+              \/ o.id = "target" /\ o.cred = "idOnly" /\ o.kl         \* the mapping's secret is the empty one
+\* r = Req(o); tm = mapping of the tunnel in question ("-": none, the request may create one)
+Entitled(r, tm) == IF r.cred = "otherId" THEN r.id = "stranger" /\ tm \in {"-", "M2"}
+                   ELSE IF r.cred = "otherSecret" THEN r.id = "stranger" /\ tm \in {"-", "M3"}
+                   ELSE EntM(r) /\ tm \in {"-", "M"}
 
 Path(ts) == CASE ts = "none" -> "newBridge" [] ts = "waiting" -> "existingBridge"
-              [] ts = "served" -> "servedBridge" [] ts = "remote" -> "crossNode" [] OTHER -> ts
+              [] ts = "served" -> "servedBridge" [] ts = "remote" -> "crossNode"
+              [] ts = "lateRemote" -> "crossNodeLate" [] ts = "lateLocal" -> "localLate" [] OTHER -> ts
 Detail(o) == Path(o.ts) \o ":" \o o.id \o ":" \o o.cred \o ":" \o o.ms
              \o (IF Keyless(o) THEN ":keyless" ELSE "")
-             \o (IF o.tm = "M2" /\ o.cred # "otherId" THEN ":squatted" ELSE "")
+             \o (IF o.tm \in {"M2", "M3"} /\ o.cred \notin {"otherId", "otherSecret"} THEN ":squatted" ELSE "")
 
 TrOpen == /\ Is("Open")
-          /\ LET r == [e |-> Entitled(Ev), d |-> Detail(Ev), ack |-> Ev.ack, closed |-> Ev.closed]
+          /\ LET r == [o |-> Req(Ev), d |-> Detail(Ev), ack |-> Ev.ack, closed |-> Ev.closed]
              IN reqs' = [w \in DOMAIN reqs \cup {Ev.who} |-> IF w = Ev.who THEN r ELSE reqs[w]]
           /\ l' = l + 1 /\ viol' = viol
 
 Check(w) == LET r == reqs[w]
                 a == Ev.att[w] # "none"
                 b == Ev.marker[w] \/ Ev.stray[w]
-            IN   (IF a /\ ~r.e THEN {V("Unentitled", r.d)} ELSE {})
-            \cup (IF b /\ ~r.e THEN {V("Leak", r.d)} ELSE {})
-            \cup (IF ~r.e /\ r.ack # "fail" /\ ~r.closed THEN {V("NoFailureAck", r.d)} ELSE {})
+                e0 == Entitled(r.o, r.o.tm)                                  \* for what existed at arrival
+                e1 == Entitled(r.o, IF Ev.bm # "-" THEN Ev.bm ELSE r.o.tm)   \* for the tunnel that exists now
+            IN   (IF a /\ ~e1 THEN {V("Unentitled", r.d)} ELSE {})
+            \cup (IF b /\ ~e1 THEN {V("Leak", r.d)} ELSE {})
+            \cup (IF ~e0 /\ r.ack # "fail" /\ ~r.closed THEN {V("NoFailureAck", r.d)} ELSE {})
 
 TrObs == /\ Is("Obs")
          /\ viol' = viol \cup UNION {Check(w) : w \in DOMAIN reqs}
